@@ -7756,6 +7756,8 @@ def main():
     try:  # hook for par (tools/translate_par.py: the thread protocol of par.rs -> Gen/Par.lean)
         if status["constants"] != "ok":
             fail("par.rs: part `constants` failed (Gen/Par.lean imports Gen/Constants.lean)")
+        if status["config"] != "ok":
+            fail("par.rs: part `config` failed (Gen/Par.lean imports Gen/Config.lean)")
         if values is None or not any(str(k).endswith("FRAMEBUF_MULTIPLICITY") for k in values):
             fail("par.rs: constant par::FRAMEBUF_MULTIPLICITY not found by part `constants`")
         import translate_par
@@ -7809,6 +7811,17 @@ def main():
         status["parser"] = f"translator cannot read {e}"
     except Exception as e:  # fail closed on anything the parser did not anticipate
         status["parser"] = f"translator cannot read parser.rs: internal error {type(e).__name__}: {e}"
+    try:  # hook for utf8 (tools/translate_utf8.py: encode_to_utf8like of bitrepr.rs -> Gen/Utf8.lean)
+        import translate_utf8
+        for dep in ("headers", "sink"):
+            if status.get(dep) != "ok":
+                fail(f"bitrepr.rs: part `{dep}` failed (Gen/Utf8.lean imports its output)")
+        write("Utf8.lean", translate_utf8.emit_utf8(sys.modules[__name__], status))
+        status["utf8"] = "ok"
+    except Unreadable as e:
+        status["utf8"] = f"translator cannot read {e}"
+    except Exception as e:  # fail closed on anything the parser did not anticipate
+        status["utf8"] = f"translator cannot read bitrepr.rs: internal error {type(e).__name__}: {e}"
     os.makedirs(os.path.join(ROOT, ".cache"), exist_ok=True)
     json.dump(status, open(os.path.join(ROOT, ".cache", "translate_status.json"), "w"), indent=1)
     bad = [v for v in status.values() if v != "ok"]
